@@ -47,7 +47,7 @@ RULE = ('cases: (a) hash functions on byte strings (random ASCII/UTF-8/raw bytes
         'families); (b) symbol-table scenarios: 0..2000 symbols (quick: mostly 0..12, some up to 200, a few up to 2000), '
         'duplicate/empty/non-ASCII/long names, versioned spellings base@VER / base@@VER / a@b@c with and without a bare twin (queried by their pieces), boundary and random st_info/st_other/st_shndx/value/size, both classes and byte '
         'orders, entry sizes above the standard, shared-suffix string tables, random section order with garbage gaps; '
-        '(c) SysV tables (nbucket 1..2n, head- or tail-inserted chains) and (d) GNU tables (nbuckets 1.., bloom size 1.., '
+        '(c) SysV tables (nbucket 1..2n, head- or tail-inserted chains; four with 1-2 buckets over 66..260 symbols, as for GNU) and (d) GNU tables (nbuckets 1.., bloom size 1.., '
         'shift 0..31, symoffset 0..n, forced full-hash collisions, section last in the file so the final chain ends at EOF), '
         'queried with every present name (sampled on large tables) and absent names (random, same bucket, same full hash, bloom '
         'false positive); (e) four real shared objects (GNU ld and gold, ELF32/ELF64, corpus/C03): decoded by the harness with struct, the '
@@ -327,6 +327,15 @@ def gen(ctx):
         if not big and n <= 12 and rng.random() < 0.5:
             # the same symbols under a second, independent GNU parameter choice
             cases.append(('gnu', common + [queries, _gnu_params(rng, names)]))
+    # ---- (i) long chains: one or two buckets over 66..260 hashed symbols (chains longer than any block a reader
+    #      might fetch at a time: 64, 128), both hash styles
+    for _ in range(4 * T):
+        n = rng.choice([66, 67, 130, rng.randint(66, 260), rng.randint(66, 260)])
+        common, names, queries = _scenario(rng, n, big=True)
+        gp = _gnu_params(rng, names, so=rng.choice([1, 1, 2]))
+        gp[0] = rng.choice([1, 1, 2])
+        cases.append(('gnu', common + [queries, gp]))
+        cases.append(('sysv', common + [queries, [rng.choice([1, 1, 2]), rng.randrange(2)]]))
     # ---- (h) long names (65..700 bytes) thousands of bytes from their entries: on real file objects they straddle the
     #      reader's buffer boundaries (every 8192 bytes from the last refill; every 16 bytes on file_small)
     for j in range(30 * T):
